@@ -69,7 +69,7 @@ class Check:
               "histories_replayed": summ.get("lines", 0), "calls_replayed": summ.get("ops", 0),
               "mismatches": summ.get("n_mismatch", 0), "complete": not tl["timed_out"], "wall_s": tl["wall_s"],
               "features": summ.get("features", {})}
-        for k in ("trunc_snapshots", "trunc_offsets", "outcome_sets", "seeds_run", "distinct_outcomes_seen"):
+        for k in ("trunc_snapshots", "trunc_offsets", "outcome_sets", "seeds_run", "distinct_outcomes_seen", "xcases"):
             if summ.get(k):
                 st[k] = summ[k]
         self.stages.append(st)
@@ -86,9 +86,30 @@ class Check:
             st["mismatches_not_listed"] = summ["n_mismatch"] - len(summ["mismatches"])
         return tl, summ
 
-    def traces_stage(self, name, recorder, profile, files, runs, ops, trace_spec="BookTrace", par=8, extra_args=(), timeout=600, consts=None):
+    def aux(self, name, cmd, kind, env=None, payload_extra=None, timeout=900):
+        """A follow-up command of a stage (cross checks): prints one JSON summary line
+        {lines, n_mismatch, mismatches}; mismatches are violations."""
+        t0 = time.time()
+        r = subprocess.run(cmd, text=True, capture_output=True, env=env or dict(os.environ, VERIF_WORK=core.WORK), timeout=timeout)
+        if r.returncode != 0:
+            raise ToolError("%s: %s failed (rc %s): %s" % (name, cmd[0], r.returncode, r.stderr[-1500:]))
+        try:
+            summ = json.loads(r.stdout.strip().splitlines()[-1])
+        except Exception as e:
+            raise ToolError("%s: unreadable summary: %s" % (name, e))
+        self.traces += summ.get("lines", 0)
+        self.stages.append({"stage": name, "kind": kind, "cases": summ.get("lines", 0), "mismatches": summ.get("n_mismatch", 0),
+                            "wall_s": round(time.time() - t0, 1)})
+        for m in summ.get("mismatches", []):
+            self.violation(name, m["what"], dict(m, **(payload_extra or {})))
+        log("[%s] %s: %d cases, %d mismatches (%.1fs)" % (name, kind, summ.get("lines", 0), summ.get("n_mismatch", 0), time.time() - t0))
+        return summ
+
+    def traces_stage(self, name, recorder, profile, files, runs, ops, trace_spec="BookTrace", par=8, extra_args=(), timeout=600, consts=None, view=None):
         """record-validate: `files` trace files, each `runs` runs of <= `ops` calls."""
         core.build_harness()
+        if isinstance(recorder, list):
+            core.build_pyext()
         d = os.path.join(core.WORK, "traces", "%s_%s" % (self.prop, name))
         os.makedirs(d, exist_ok=True)
         t0 = time.time()
@@ -96,13 +117,15 @@ class Check:
         def one(i):
             out = os.path.join(d, "t%d.ndjson" % i)
             seed = (self.seed * 1000003 + i * 7919 + hash_name(name)) % (1 << 31)
-            r = subprocess.run([os.path.join(core.BIN, recorder), "--out", out, "--seed", str(seed), "--runs", str(runs),
+            rcmd = recorder if isinstance(recorder, list) else [os.path.join(core.BIN, recorder)]
+            renv = core.pyenv() if isinstance(recorder, list) else dict(os.environ, VERIF_WORK=core.WORK)
+            r = subprocess.run(rcmd + ["--out", out, "--seed", str(seed), "--runs", str(runs),
                                 "--ops", str(ops), "--profile", json.dumps(profile)] + [str(a) for a in extra_args],
-                               text=True, capture_output=True, env=dict(os.environ, VERIF_WORK=core.WORK))
+                               text=True, capture_output=True, env=renv)
             if r.returncode != 0:
                 raise ToolError("%s: recorder failed: %s" % (name, r.stderr[-2000:]))
             summ = json.loads(r.stdout.strip().splitlines()[-1])
-            v = core.validate_trace("%s_%s_%d" % (self.prop, name, i), trace_spec, out, timeout=timeout, consts=consts)
+            v = core.validate_trace("%s_%s_%d" % (self.prop, name, i), trace_spec, out, timeout=timeout, consts=consts, view=view)
             return i, out, seed, summ, v
 
         tot_events, tot_states, nrej = 0, 0, 0
